@@ -2,11 +2,41 @@
    Every statement is over ALL inputs of Seg.v (any rank, any sizes, any lists, any pixel function);
    `accepts r` means r is a returned pair whose verdict is True, `rejects_with_message r` a returned
    pair with verdict False and at least one message.  Numbers that are not integers (coordinates,
-   scales, axis maxima) are rationals with denominator U = 1024, so "m < n * s" below compares the
-   axis maximum m/U with n * (s/U) and c*s has denominator U*U. *)
+   scales, axis maxima) are `xnum`: `XFin z` is the rational z/U with U = 1024, and XNaN, XPInf, XNInf
+   are the IEEE tokens NaN, +inf, -inf, which Python floats can hold and geff metadata can store.  So
+   for finite values "xlt m (extent n s)" below compares the axis maximum m/U with n * (s/U), and a
+   finite product c*s has denominator U*U.  `xmul` / `extent` / `xlt` are IEEE multiplication and
+   order; C19_ieee pins them down. *)
 From Geff Require Import Base Dtype Seg SegLemmas.
 Open Scope Z_scope.
 Open Scope list_scope.
+
+(* what the IEEE operations of the model are: the order on extended numbers (finite values compare as
+   numbers, nothing is below or above NaN, -inf is below and +inf above everything else but themselves),
+   and the product (finite * finite as numbers; a product is finite only if both factors are;
+   commutative; NaN absorbs; inf * 0 = NaN; otherwise the infinity with the product of the signs).
+   Together with commutativity the equations determine xmul on every pair. *)
+Theorem C19_ieee :
+  (forall a b, xlt (XFin a) (XFin b) <-> a < b) /\
+  (forall x, ~ xlt XNaN x /\ ~ xlt x XNaN /\ ~ xlt x XNInf /\ ~ xlt XPInf x) /\
+  (forall a, xlt (XFin a) XPInf /\ xlt XNInf (XFin a)) /\ xlt XNInf XPInf /\
+  (forall a b, xltb a b = true <-> xlt a b) /\
+  (forall a b, xmul (XFin a) (XFin b) = XFin (a * b)) /\
+  (forall a b p, xmul a b = XFin p -> exists x y, a = XFin x /\ b = XFin y /\ p = x * y) /\
+  (forall a b, xmul a b = xmul b a) /\
+  (forall a, xmul XNaN a = XNaN) /\
+  (xmul XPInf (XFin 0) = XNaN /\ xmul XNInf (XFin 0) = XNaN) /\
+  (forall y, y <> 0 -> xmul XPInf (XFin y) = (if 0 <? y then XPInf else XNInf) /\
+                       xmul XNInf (XFin y) = (if 0 <? y then XNInf else XPInf)) /\
+  (xmul XPInf XPInf = XPInf /\ xmul XNInf XNInf = XPInf /\ xmul XPInf XNInf = XNInf /\ xmul XNInf XPInf = XNInf) /\
+  (forall n s, extent n s = xmul (XFin (Z.of_nat n)) s).
+Proof.
+  split; [exact xlt_fin_iff|]. split; [exact xlt_no_nan|]. split; [intros a; split; constructor|].
+  split; [constructor|]. split; [exact xltb_iff|]. split; [reflexivity|]. split; [exact xmul_fin_inv|].
+  split; [exact xmul_comm|]. split; [reflexivity|]. split; [exact xmul_inf_zero|]. split; [exact xmul_inf_fin|].
+  split; [exact xmul_inf_inf|]. reflexivity.
+Qed.
+Print Assumptions C19_ieee.
 
 (* has_valid_seg_id is True exactly when the property exists, has one of the eight integer dtypes,
    and no entry of its missing array (if there is one) is set *)
@@ -32,17 +62,50 @@ Proof. exact axes_match_iff. Qed.
 Print Assumptions C19_axes_match.
 
 (* graph_is_in_seg_bounds is True exactly when there are axes, as many as dimensions, the scale vector
-   (ones when absent) has that length too, and every axis has a maximum that lies strictly inside the
-   scaled extent: max < size * scale -- in particular a maximum of 0 is a maximum *)
+   (ones when absent) has that length too, and every axis has a maximum with  max < size * scale  in the
+   IEEE sense (xlt) -- in particular a maximum of 0 is a maximum, and a NaN maximum, a NaN scale factor
+   or an extent 0 * inf = NaN is never inside (C19_bounds_nonfinite spells that out).
+   "Inside the scaled extent" is read as this one inequality, which is all the function and its tests
+   examine: the lower end is not looked at, so a negative maximum, a maximum of -inf, a negative scale
+   factor with a still smaller maximum, or an axis minimum below 0 pass.  The right-hand side is the
+   loop body stated pointwise, not an independent notion of containment. *)
 Theorem C19_bounds : forall axes shape scale,
   accepts (graph_is_in_seg_bounds axes shape scale) <->
   let sc := scale_or_ones scale (List.length shape) in
   exists l, axes = Some l /\ l <> [] /\ List.length l = List.length shape /\
             List.length sc = List.length shape /\
             forall i ax n s, nth_error l i = Some ax -> nth_error shape i = Some n -> nth_error sc i = Some s ->
-                             exists m, ax_max ax = Some m /\ m < Z.of_nat n * s.
+                             exists m, ax_max ax = Some m /\ xlt m (extent n s).
 Proof. exact bounds_iff. Qed.
 Print Assumptions C19_bounds.
+
+(* the same for finite numbers, in integers: max < size * scale (units 1/U) *)
+Theorem C19_bounds_finite : forall ax n m s,
+  ax_max ax = Some (XFin m) ->
+  ((exists m', ax_max ax = Some m' /\ xlt m' (extent n (XFin s))) <-> m < Z.of_nat n * s).
+Proof.
+  intros ax n m s Hm. rewrite <- xlt_fin_iff, <- extent_fin. split.
+  - intros [m' [H1 H2]]. rewrite Hm in H1. inversion H1; subst. exact H2.
+  - intros H. exists (XFin m). split; [exact Hm|exact H].
+Qed.
+Print Assumptions C19_bounds_finite.
+
+(* an axis whose maximum is NaN or +inf, or whose extent size * scale is NaN (NaN scale factor, or size 0
+   with an infinite one) or -inf, gives False with a message whenever the loop is reached at all *)
+Theorem C19_bounds_nonfinite : forall axes shape scale,
+  (exists l i ax n s, axes = Some l /\ nth_error l i = Some ax /\ nth_error shape i = Some n /\
+                      nth_error (scale_or_ones scale (List.length shape)) i = Some s /\
+                      (ax_max ax = Some XNaN \/ ax_max ax = Some XPInf \/ extent n s = XNaN \/ extent n s = XNInf)) ->
+  rejects_with_message (graph_is_in_seg_bounds axes shape scale).
+Proof. exact bounds_nonfinite_rejects. Qed.
+Print Assumptions C19_bounds_nonfinite.
+
+(* which extents are not finite: a NaN scale factor; an infinite one (NaN when the size is 0) *)
+Theorem C19_extent : forall n,
+  (forall s, extent n (XFin s) = XFin (Z.of_nat n * s)) /\ extent n XNaN = XNaN /\
+  extent n XPInf = (if Nat.eqb n 0 then XNaN else XPInf) /\ extent n XNInf = (if Nat.eqb n 0 then XNaN else XNInf).
+Proof. intros n. split; [intros s; apply extent_fin|]. split; [apply extent_nan|apply extent_inf]. Qed.
+Print Assumptions C19_extent.
 
 (* the time axis: the only axis of type "time" if there is exactly one, axis 0 in every other case
    (no metadata, no axes, none or several time axes) *)
@@ -69,7 +132,8 @@ Print Assumptions C19_time_points.
 
 (* has_seg_ids_at_coords is True exactly when the two lists have the same length, the scale vector (ones
    when absent) has one entry per dimension, and every coordinate has a pixel (pixel_of: one value per
-   axis, 0 <= floor(c*s) < size on every axis) that carries the label paired with it *)
+   axis, coordinate and scale factor finite, 0 <= floor(c*s) < size on every axis -- see C19_pixel) that
+   carries the label paired with it; a NaN or infinite coordinate or scale factor has no pixel *)
 Theorem C19_coords : forall v coords ids scale,
   let sc := scale_or_ones scale (rank v) in
   accepts (has_seg_ids_at_coords v coords ids scale) <->
@@ -79,18 +143,35 @@ Theorem C19_coords : forall v coords ids scale,
 Proof. exact coords_iff. Qed.
 Print Assumptions C19_coords.
 
-(* pixel_of says what it should: the index is inside the volume, per axis it is the floor of the
-   scaled coordinate, and it is unique *)
+(* consequences of pixel_of: the index is inside the volume, the coordinate has one value per axis,
+   every coordinate component and scale factor is finite, and the index is unique.  (That the index is
+   the floor of the scaled coordinate is not among these consequences: it is what the inductive
+   definition of pixel_of in SegLemmas.v says; C19_pixel_pointwise restates that definition without the
+   induction.) *)
 Theorem C19_pixel : forall shape sc coord idx,
   pixel_of shape sc coord idx ->
   Forall2 (fun i n => 0 <= i < Z.of_nat n) idx shape /\
   List.length coord = List.length shape /\
+  (Forall is_fin coord /\ Forall is_fin sc) /\
   (forall idx', pixel_of shape sc coord idx' -> idx = idx').
 Proof.
   intros shape sc coord idx H. split; [apply (pixel_of_in_bounds _ _ _ _ H)|].
-  split; [apply (pixel_of_length _ _ _ _ H)|apply (pixel_of_fun _ _ _ _ H)].
+  split; [apply (pixel_of_length _ _ _ _ H)|]. split; [apply (pixel_of_finite _ _ _ _ H)|apply (pixel_of_fun _ _ _ _ H)].
 Qed.
 Print Assumptions C19_pixel.
+
+(* pixel_of, axis by axis: the four lists have one entry per axis, and on every axis the coordinate c and
+   the scale factor s are finite, the index i lies in 0 <= i < size, and i <= c*s < i+1 (in units 1/(U*U)),
+   i.e. i is the floor of the scaled coordinate *)
+Theorem C19_pixel_pointwise : forall shape sc coord idx,
+  pixel_of shape sc coord idx <->
+  List.length sc = List.length shape /\ List.length coord = List.length shape /\ List.length idx = List.length shape /\
+  forall k n s c i, nth_error shape k = Some n -> nth_error sc k = Some s -> nth_error coord k = Some c ->
+                    nth_error idx k = Some i ->
+                    exists c' s', c = XFin c' /\ s = XFin s' /\ 0 <= i < Z.of_nat n /\
+                                  i * (U * U) <= c' * s' < (i + 1) * (U * U).
+Proof. exact pixel_of_pointwise. Qed.
+Print Assumptions C19_pixel_pointwise.
 
 (* an out-of-range time point gives False together with a message naming an out-of-range time point *)
 Theorem C19_time_out_of_range : forall v tps ids md,
@@ -101,13 +182,22 @@ Theorem C19_time_out_of_range : forall v tps ids md,
 Proof. exact time_points_out_of_range. Qed.
 Print Assumptions C19_time_out_of_range.
 
-(* an out-of-range coordinate (no pixel: wrong number of values, negative, or beyond the size)
-   gives False together with a message *)
+(* an out-of-range coordinate (no pixel: wrong number of values, negative, beyond the size, or NaN /
+   infinite / scaled by a NaN or infinite factor) gives False together with a message *)
 Theorem C19_coords_out_of_range : forall v coords ids scale,
   (exists coord, In coord coords /\ ~ exists idx, pixel_of (v_shape v) (scale_or_ones scale (rank v)) coord idx) ->
   rejects_with_message (has_seg_ids_at_coords v coords ids scale).
 Proof. exact coords_out_of_range. Qed.
 Print Assumptions C19_coords_out_of_range.
+
+(* in particular: a coordinate with a NaN or infinite component, or any coordinate at all under a scale
+   vector holding a NaN or infinite factor (0 * inf is NaN, so even coordinate 0), gives False with a message *)
+Theorem C19_coords_nonfinite : forall v coords ids scale,
+  (exists coord x, In coord coords /\ In x coord /\ ~ is_fin x) \/
+  (coords <> [] /\ exists s, In s (scale_or_ones scale (rank v)) /\ ~ is_fin s) ->
+  rejects_with_message (has_seg_ids_at_coords v coords ids scale).
+Proof. exact coords_nonfinite. Qed.
+Print Assumptions C19_coords_nonfinite.
 
 (* when every time point is in range, the "Missing seg_id l at time t" messages name exactly the listed
    (time point, label) pairs whose label does not occur at its time point *)
@@ -119,16 +209,20 @@ Theorem C19_time_points_messages : forall v tps ids md b errs,
 Proof. exact time_points_messages. Qed.
 Print Assumptions C19_time_points_messages.
 
-(* a "Graph axis j is out of bounds" message names an axis whose maximum is not inside: size * scale <= max *)
+(* a "Graph axis j is out of bounds" message names an axis whose maximum is not inside: max < size * scale
+   fails in the IEEE sense, which for a finite maximum and scale factor is size * scale <= max *)
 Theorem C19_bounds_message : forall axes shape scale b errs j,
   graph_is_in_seg_bounds axes shape scale = Ok (b, errs) -> In (MAxisOob j) errs ->
   exists l ax n s m, axes = Some l /\ nth_error l j = Some ax /\ nth_error shape j = Some n /\
                      nth_error (scale_or_ones scale (List.length shape)) j = Some s /\
-                     ax_max ax = Some m /\ Z.of_nat n * s <= m.
-Proof. exact bounds_message. Qed.
+                     ax_max ax = Some m /\ ~ xlt m (extent n s) /\
+                     (forall m' s', m = XFin m' -> s = XFin s' -> Z.of_nat n * s' <= m').
+Proof. exact bounds_message_fin. Qed.
 Print Assumptions C19_bounds_message.
 
-(* never an exception: each of the five checks returns a (bool, messages) pair on every input *)
+(* never an exception: each of the five checks returns a (bool, messages) pair on every input -- NaN and
+   infinite coordinates, scale factors and axis maxima included (int(NaN) is never reached, int(inf) is
+   caught) *)
 Theorem C19_total :
   (forall props key, is_ok (has_valid_seg_id props key) = true) /\
   (forall axes shape, is_ok (axes_match_seg_dims axes shape) = true) /\
@@ -154,26 +248,50 @@ Print Assumptions C19_false_has_message.
    (t=-1 would wrap to the last frame in numpy); with the time axis last (metadata) label 3 is at t=0.
    coordinates: (1,0,1) holds 4; with scale 1/2 coordinate (2,0,3.5) is that same pixel; -0.5 and 2 are outside.
    bounds: maxima (0, 0, 1.5) are inside a (2,1,2) extent, a maximum of 2 on the last axis is not, and
-   four axes against three dimensions are reported, not raised. *)
+   four axes against three dimensions are reported, not raised.
+   non-finite: a NaN, +inf or -inf coordinate, coordinate 0 under a NaN scale factor, an infinite
+   coordinate under scale factor 0 (inf * 0 = NaN) and coordinate 0 under an infinite scale factor are
+   reported as out of bounds; a NaN or +inf axis maximum, a NaN scale factor and size 0 with an infinite
+   scale factor are out of bounds, while an infinite scale factor on a non-empty axis and a maximum of
+   -inf are accepted (max < size * scale holds). *)
 Example C19_nonvacuous :
   let v := {| v_shape := [2; 1; 2]%nat; v_px := px_of [2; 1; 2]%nat [1; 2; 3; 4] |} in
   let ax t m := {| ax_time := t; ax_max := m |} in
+  let fin := map XFin in
+  let fm z := Some (XFin z) in
   has_seg_ids_at_time_points v [0; 1] [2; 3] None = Ok (true, []) /\
   has_seg_ids_at_time_points v [0] [3] None = Ok (false, [MMissingLabel 3 0]) /\
   has_seg_ids_at_time_points v [-1] [3] None = Ok (false, [MTimeOob (-1)]) /\
   has_seg_ids_at_time_points v [0; 2] [1; 1] None = Ok (false, [MTimeOob 2]) /\
   has_seg_ids_at_time_points v [0] [3] (Some (Some [ax false None; ax false None; ax true None])) = Ok (true, []) /\
-  has_seg_ids_at_coords v [[1024; 0; 1024]] [4] None = Ok (true, []) /\
-  has_seg_ids_at_coords v [[2048; 0; 3584]] [4] (Some [512; 512; 512]) = Ok (true, []) /\
-  has_seg_ids_at_coords v [[1024; 0; 1024]] [3] None = Ok (false, []) /\
-  has_seg_ids_at_coords v [[-512; 0; 0]] [1] None = Ok (false, [MCoordOob 0]) /\
-  has_seg_ids_at_coords v [[0; 0; 0]; [2048; 0; 0]] [1; 1] None = Ok (false, [MCoordOob 1]) /\
-  has_seg_ids_at_coords v [[0; 0]] [1] None = Ok (false, [MCoordArity 0]) /\
-  graph_is_in_seg_bounds (Some [ax true (Some 0); ax false (Some 0); ax false (Some 1536)]) [2; 1; 2]%nat None = Ok (true, []) /\
-  graph_is_in_seg_bounds (Some [ax true (Some 0); ax false (Some 0); ax false (Some 2048)]) [2; 1; 2]%nat None
+  has_seg_ids_at_coords v [fin [1024; 0; 1024]] [4] None = Ok (true, []) /\
+  has_seg_ids_at_coords v [fin [2048; 0; 3584]] [4] (Some (fin [512; 512; 512])) = Ok (true, []) /\
+  has_seg_ids_at_coords v [fin [1024; 0; 1024]] [3] None = Ok (false, []) /\
+  has_seg_ids_at_coords v [fin [-512; 0; 0]] [1] None = Ok (false, [MCoordOob 0]) /\
+  has_seg_ids_at_coords v [fin [0; 0; 0]; fin [2048; 0; 0]] [1; 1] None = Ok (false, [MCoordOob 1]) /\
+  has_seg_ids_at_coords v [fin [0; 0]] [1] None = Ok (false, [MCoordArity 0]) /\
+  has_seg_ids_at_coords v [[XNaN; XFin 0; XFin 0]] [1] None = Ok (false, [MCoordOob 0]) /\
+  has_seg_ids_at_coords v [[XFin 0; XFin 0; XPInf]] [1] None = Ok (false, [MCoordOob 0]) /\
+  has_seg_ids_at_coords v [fin [0; 0; 0]; [XFin 0; XNInf; XFin 0]] [1; 1] None = Ok (false, [MCoordOob 1]) /\
+  has_seg_ids_at_coords v [fin [0; 0; 0]] [1] (Some [XNaN; XFin 1024; XFin 1024]) = Ok (false, [MCoordOob 0]) /\
+  has_seg_ids_at_coords v [[XPInf; XFin 0; XFin 0]] [1] (Some (fin [0; 1024; 1024])) = Ok (false, [MCoordOob 0]) /\
+  has_seg_ids_at_coords v [fin [0; 0; 0]] [1] (Some [XFin 1024; XPInf; XFin 1024]) = Ok (false, [MCoordOob 0]) /\
+  has_seg_ids_at_coords v [fin [1024; 0; 0]] [3] (Some [XFin 1024; XPInf; XFin 1024]) = Ok (false, [MCoordOob 0]) /\
+  graph_is_in_seg_bounds (Some [ax true (fm 0); ax false (fm 0); ax false (fm 1536)]) [2; 1; 2]%nat None = Ok (true, []) /\
+  graph_is_in_seg_bounds (Some [ax true (fm 0); ax false (fm 0); ax false (fm 2048)]) [2; 1; 2]%nat None
     = Ok (false, [MAxisOob 2]) /\
-  graph_is_in_seg_bounds (Some [ax true (Some 0); ax false (Some 0); ax false (Some 0); ax false (Some 0)]) [2; 1; 2]%nat None
+  graph_is_in_seg_bounds (Some [ax true (fm 0); ax false (fm 0); ax false (fm 0); ax false (fm 0)]) [2; 1; 2]%nat None
     = Ok (false, [MAxesDims]) /\
+  graph_is_in_seg_bounds (Some [ax true (fm 0); ax false (Some XNaN); ax false (fm 0)]) [2; 1; 2]%nat None
+    = Ok (false, [MAxisOob 1]) /\
+  graph_is_in_seg_bounds (Some [ax true (Some XPInf); ax false (fm 0); ax false (fm 0)]) [2; 1; 2]%nat None
+    = Ok (false, [MAxisOob 0]) /\
+  graph_is_in_seg_bounds (Some [ax true (fm 0); ax false (fm 0); ax false (fm 0)]) [2; 1; 2]%nat (Some [XFin 1024; XFin 1024; XNaN])
+    = Ok (false, [MAxisOob 2]) /\
+  graph_is_in_seg_bounds (Some [ax true (fm 0); ax false (fm 0); ax false (fm 0)]) [2; 0; 2]%nat (Some [XFin 1024; XPInf; XFin 1024])
+    = Ok (false, [MAxisOob 1]) /\
+  graph_is_in_seg_bounds (Some [ax true (fm 4096); ax false (Some XNInf); ax false (fm 0)]) [2; 1; 2]%nat (Some [XPInf; XFin 1024; XFin 1024])
+    = Ok (true, []) /\
   axes_match_seg_dims (Some [ax true None; ax false None; ax false None]) [2; 1; 2]%nat = Ok (true, []) /\
   has_valid_seg_id [("seg_id"%string, (DU16, Some [false; false]))] "seg_id" = Ok (true, []) /\
   has_valid_seg_id [("seg_id"%string, (DF32, None))] "seg_id" = Ok (false, [MNonInteger]).
